@@ -2,8 +2,11 @@ import NurbsVerif.Driver.Basic
 import NurbsVerif.Driver.Shape
 import NurbsVerif.Driver.Degree
 import NurbsVerif.Driver.Linalg
+import NurbsVerif.Driver.Layout
+import NurbsVerif.Driver.Equality
+import NurbsVerif.Driver.Weights
 namespace Drv
-def handlers : List (List String → Option String) := [handleBasic, handleShape, handleDegree, handleLinalg]
+def handlers : List (List String → Option String) := [handleBasic, handleShape, handleDegree, handleLinalg, handleLayout, handleEquality, handleWeights]
 def step (line : String) : String :=
   let toks := (line.trimAscii.toString.splitOn " ").filter (· ≠ "")
   match handlers.findSome? (fun h => h toks) with
